@@ -1947,3 +1947,126 @@ def thread_none_sentinel(fn, world, modname):
         return fn
     ast.fix_missing_locations(out)
     return out
+
+
+def scalarise_namedtuples(fn, world, modname):
+    """A local bound once to a NamedTuple of the module - `w = K(e1, ..)`, or
+    `w = K.m(args)` with m a classmethod whose body is `return cls(*E)` /
+    `return cls(e1, ..)` - and used only through its fields is those field
+    expressions: `w.f_i` becomes e_i (E[i] in the starred form, the
+    method's parameters replaced by the arguments).  Returns fn or a
+    rewritten copy."""
+    from .inline import acopy
+    if world is None:
+        return fn
+    cands = {}
+    for n in _walk_no_nested(fn):
+        if isinstance(n, ast.Assign) and len(n.targets) == 1 and isinstance(
+                n.targets[0], ast.Name) and isinstance(n.value, ast.Call):
+            cands.setdefault(n.targets[0].id, []).append(n)
+    repl = {}
+    for w, defs in cands.items():
+        if len(defs) != 1:
+            continue
+        call = defs[0].value
+        if call.keywords or any(isinstance(a, ast.Starred)
+                                for a in call.args):
+            continue
+        f = call.func
+        K, meth = None, None
+        try:
+            if isinstance(f, ast.Attribute):
+                K = world.resolve_class(modname, f.value)
+                meth = f.attr
+                if K is None:
+                    K = world.resolve_class(modname, f)
+                    meth = None
+            else:
+                K = world.resolve_class(modname, f)
+        except Exception:
+            K = None
+        if K is None or not K.has_ext_base("NamedTuple"):
+            continue
+        fields = [st.target.id for st in K.node.body if isinstance(
+            st, ast.AnnAssign) and isinstance(st.target, ast.Name)]
+        exprs = None
+        if meth is None:
+            if len(call.args) == len(fields):
+                exprs = list(call.args)
+        elif meth in K.methods and K.methods[meth][0] == "classmethod":
+            m = K.methods[meth][1]
+            body = [s_ for s_ in m.body if not (isinstance(
+                s_, ast.Expr) and isinstance(s_.value, ast.Constant))]
+            ps = [a.arg for a in m.args.args]
+            if len(body) == 1 and isinstance(body[0], ast.Return) and \
+                    isinstance(body[0].value, ast.Call) and ast.unparse(
+                        body[0].value.func) == ps[0] and len(
+                            call.args) == len(ps) - 1 and \
+                    not body[0].value.keywords:
+                env = dict(zip(ps[1:], call.args))
+
+                class S(ast.NodeTransformer):
+                    def visit_Name(self, x):
+                        if x.id in env and isinstance(x.ctx, ast.Load):
+                            return acopy(env[x.id])
+                        return x
+                ra = body[0].value.args
+                if len(ra) == 1 and isinstance(ra[0], ast.Starred):
+                    base = S().visit(acopy(ra[0].value))
+                    exprs = [ast.Subscript(acopy(base), ast.Constant(i),
+                                           ast.Load())
+                             for i in range(len(fields))]
+                elif len(ra) == len(fields) and not any(
+                        isinstance(a, ast.Starred) for a in ra):
+                    exprs = [S().visit(acopy(a)) for a in ra]
+        if exprs is None:
+            continue
+        # every other use of w is a field read, and what the expressions
+        # mention is not re-bound in the function
+        ok = True
+        parent = {}
+        for x in ast.walk(fn):
+            for ch in ast.iter_child_nodes(x):
+                parent[id(ch)] = x
+        for x in _walk_no_nested(fn):
+            if isinstance(x, ast.Name) and x.id == w and \
+                    x is not defs[0].targets[0]:
+                up = parent.get(id(x))
+                if not (isinstance(up, ast.Attribute) and up.value is x and
+                        up.attr in fields and isinstance(up.ctx, ast.Load)):
+                    ok = False
+        names = {x.id for e in exprs for x in ast.walk(e)
+                 if isinstance(x, ast.Name)}
+        stored = {}
+        for x in _walk_no_nested(fn):
+            if isinstance(x, ast.Name) and isinstance(
+                    x.ctx, (ast.Store, ast.Del)):
+                stored[x.id] = stored.get(x.id, 0) + 1
+        if any(stored.get(nm, 0) > 0 for nm in names):
+            ok = False
+        if ok:
+            repl[w] = (defs[0], dict(zip(fields, exprs)))
+    if not repl:
+        return fn
+    out = acopy(fn)
+
+    class R(ast.NodeTransformer):
+        def visit_Attribute(self, n):
+            if isinstance(n.value, ast.Name) and n.value.id in repl and \
+                    isinstance(n.ctx, ast.Load) and \
+                    n.attr in repl[n.value.id][1]:
+                return ast.copy_location(acopy(repl[n.value.id][1][n.attr]),
+                                         n)
+            return self.generic_visit(n)
+
+        def visit_Assign(self, n):
+            if len(n.targets) == 1 and isinstance(
+                    n.targets[0], ast.Name) and n.targets[0].id in repl and \
+                    isinstance(n.value, ast.Call):
+                # the construction itself is kept as an expression statement
+                # (what it may raise - OverflowError of to_bytes - stays)
+                return ast.copy_location(ast.Expr(n.value), n)
+            return self.generic_visit(n)
+    out = R().visit(out)
+    ast.fix_missing_locations(out)
+    return out
